@@ -719,7 +719,7 @@ func (x *exec) posStr(p token.Pos) string {
 // ret finishes the top frame normally.
 func (x *exec) ret(st *State, vals []Val) {
 	fr := x.popFrame(st)
-	fr.k(st, Outcome{Vals: vals})
+	fr.k(st, Outcome{Vals: vals, Fr: fr})
 }
 
 // raise starts (or continues) panicking in the top frame: run its deferred calls, then
